@@ -32,7 +32,7 @@ CHECKS = {
             "Trusted: exact BigRational linear algebra. cond_1 <= 1e10 and range clause as the property states.",
             "DESIGN.md §5/C15"),
     "C16": ("kernel", "exploration",
-            "complete enumeration of small symmetric matrices (definite, semi-definite, indefinite) x tolerance alphabet; exact recomputation of the L21 distance",
+            "complete enumeration of small symmetric matrices (definite, semi-definite, indefinite) x tolerance alphabet; exact recomputation of the L21 distance; deviation-bounded fault injection (one perturbed reciprocal answer of the scalar type at every call position) with tolerances enumerated at fractions of the exact distance",
             "Every symmetric integer matrix of the alphabet up to dim 3, plus 2^±200/±500 scaled copies, under 8 tolerances (None, 0, 1e-300 ... +inf): Ok implies non-zero determinant and pivot product, and with the test on Ok implies no NaN and an exactly recomputed L21 distance <= tol + 2B, B the rigorous first-order bound of the f64 evaluation of that distance; an ill-conditioned SPD family x a ladder of 14 tolerances covers the only zone where a wrong residual can be refuted soundly (exact distance above 2B). Corner x-space points of multi-loop graphs through sample() with the test on must not return Ok with a NaN decomposition.",
             "Trusted: exact rational recomputation of inverse*M - I. Panics on non-definite input are recorded, not judged.",
             "DESIGN.md §5/C16"),
@@ -132,10 +132,10 @@ EXTRA = {
     "C11": SIZE_LADDER + INPLACE + UNITS + FAMILY5,
     "C13": INPLACE + " On the default point of every sector the other combinations of print_debug_info and matrix_stability_test = +inf are executed and judged as well.",
     "C14": SIZE_LADDER + " UNDERFLOW ANSWERS: every xi coordinate also takes 1e-300, 2^-1074 and 0 (the running product of the parameters becomes exactly zero), alone and with one more deviation: the remaining coordinates must still be read in their roles. A slice of get_dimension()-1 coordinates must not be sampled successfully.",
-    "C16": " POSITION ALPHABET: unit matrices of dimension 2..8 with, at every diagonal position, an indefinite 2x2 block, a semi-definite one or a 1e-310 entry (the inverse overflows) under all tolerances; bordered, balanced-pivot and graded-block families up to 8x8; the evaluation bound counts only non-zero products. The evidence reports, per family, the exact distance in units of the slack (decisive where > 1). Two relations between verdicts need no numerical oracle: a matrix that is ZeroDet without the stability test is ZeroDet with it, and the verdict with print_debug_info = return_metadata = true equals the quiet verdict.",
+    "C16": " POSITION ALPHABET: unit matrices of dimension 2..8 with, at every diagonal position, an indefinite 2x2 block, a semi-definite one or a 1e-310 entry (the inverse overflows) under all tolerances; bordered, balanced-pivot and graded-block families up to 8x8; the evaluation bound counts only non-zero products. The evidence reports, per family, the exact distance in units of the slack (decisive where > 1). Two relations between verdicts need no numerical oracle: a matrix that is ZeroDet without the stability test is ZeroDet with it, and the verdict with print_debug_info = return_metadata = true equals the quiet verdict. RECIPROCAL FAULTS (environment deviation): the generic routine runs on the tracking scalar with ONE inv() answer perturbed (every call position and all calls; factors 1+-2^-10, 1+2^-20) on dense / arrowhead / tridiagonal / graded SPD matrices of dimension 2..6 (thorough 8) in both row orders and on the graph L matrices; the exact distance of the returned inverse is then 1e8..1e11 times the rigorous rounding slack, and every tolerance d*k/32 (k=1..31) must be answered Unstable - this decides the stability verdict itself (triangle-only residuals, row instead of column norms, skipped tests).",
     "C17": " The in-place rebuild operation also drives the replacement sampler (different number of draws) through generate_sample_from_rng. Further operations: sampling with the other mass pattern (None <-> Some(m), signed) and generate_sample_from_rng under a stability test that always fails (exactly get_dimension() draws, the error of the x-space entry); a second sampler of the same graph with its signature rows rotated over the edges. SUPPLEMENTARY (sampling of schedules, not part of the exhaustive claim): four free-running OS threads sample three samplers of different dod in turn and compare with the single-threaded reference.",
     "C18": SIZE_LADDER + " Loop signatures multiplied by 200, -129, 70000 and -2^33 (entries beyond i8/i16/i32) are round-tripped through all three formats and sampled.",
-    "C19": SIZE_LADDER + " In the double-double end-to-end run every Gaussian component is compared with an independent double-double Box-Muller transform of its pair (own ln, sqrt, sin, cos, 107-bit pi) to 2^-90.",
+    "C19": SIZE_LADDER + " In the double-double end-to-end run every Gaussian component is compared with an independent double-double Box-Muller transform of its pair (own ln, sqrt, sin, cos, 107-bit pi) to 2^-90. The tracked executions (narrowing census) also run under routings with signature entries +2 and -2 (shears applied twice) on the default point of every sector of configurations with two or more loops.",
 }
 
 def main():
